@@ -331,26 +331,19 @@ theorem ruleStep_users {cx : Ctx} {U : List Use} {rn : List Name} (hU : UsesOk c
     (h : ruleStep cx rule st = .ok st') : UsersOk cx rn (done ++ doneAlts rule 0 rule.alts) st'.nts st'.prods := by
   have hs' : ∀ a, a ∈ rule.alts → ∀ u, u ∈ altUses cx.matchesMap a → u ∈ U :=
     fun a ha u huu => hs u (List.mem_flatMap.mpr ⟨a, ha, huu⟩)
-  unfold ruleStep at h
-  split at h
-  · cases h
-  · split at h
-    · cases h
-    · split at h
-      · rename_i nt hf
-        exact altSteps_users hU hrn hs' (pend := none) hi hx ⟨nt, hf, rfl⟩ hu h
-      · rename_i hf
-        have hi' : NtsInv (some (rule.name, st.nextNt)) ({ st with nextNt := st.nextNt + 1 } : XSt) := by
-          refine ⟨hi.names, hi.idxs, fun nt hnt => Nat.lt_succ_of_lt (hi.bound nt hnt), hi.prodsB, ?_⟩
-          refine ⟨?_, Nat.lt_succ_self _, findNt_none hf, ?_⟩
-          · show st.nts.length + 1 = st.nextNt + 1
-            rw [hi.pendOk]
-          · intro hm
-            obtain ⟨x, hxm, e⟩ := List.mem_map.mp hm
-            have := hi.bound x hxm
-            omega
-        exact altSteps_users hU hrn hs' (pend := some (rule.name, st.nextNt))
-          (st := { st with nextNt := st.nextNt + 1 }) hi' hx rfl hu h
+  rcases ruleStep_ok h with ⟨nt, hf, h⟩ | ⟨hf, h⟩
+  · exact altSteps_users hU hrn hs' (pend := none) hi hx ⟨nt, hf, rfl⟩ hu h
+  · have hi' : NtsInv (some (rule.name, st.nextNt)) ({ st with nextNt := st.nextNt + 1 } : XSt) := by
+      refine ⟨hi.names, hi.idxs, fun nt hnt => Nat.lt_succ_of_lt (hi.bound nt hnt), hi.prodsB, ?_⟩
+      refine ⟨?_, Nat.lt_succ_self _, findNt_none hf, ?_⟩
+      · show st.nts.length + 1 = st.nextNt + 1
+        rw [hi.pendOk]
+      · intro hm
+        obtain ⟨x, hxm, e⟩ := List.mem_map.mp hm
+        have := hi.bound x hxm
+        omega
+    exact altSteps_users hU hrn hs' (pend := some (rule.name, st.nextNt))
+      (st := { st with nextNt := st.nextNt + 1 }) hi' hx rfl hu h
 
 theorem ruleSteps_users {cx : Ctx} {U : List Use} {rn : List Name} (hU : UsesOk cx.fx U rn) :
     ∀ {rules : List Rule} {st st' : XSt} {done : List Done},
